@@ -1,55 +1,27 @@
-//! Library-level property tests (C16 lattice laws, C17 aggregators, C18 union-find structures, C19 index types).
-//! usage: libprops <C16|C17|C18|C19> --tier quick|thorough --seed N --out FILE [--replay FILE]
+//! usage: libprops <C16|C17|C18|C19> --tier quick|thorough --seed N --out FILE
+//!        libprops fuzz-replay <target> FILE      (replays a saved fuzz input outside the fuzzer; exit 1 on failure)
+//!        libprops fuzz-corpus <target> DIR N SEED  (writes N seed inputs for a fuzz campaign)
 
-use std::collections::BTreeMap;
-
-mod c16;
-mod c17;
-mod c18;
-mod c19;
-
-#[derive(Default, serde::Serialize)]
-pub struct Report {
-   pub evaluations: u64,
-   pub nontrivial: u64,
-   pub exhaustive: bool,
-   pub distribution: BTreeMap<String, u64>,
-   pub samples: Vec<serde_json::Value>,
-   pub violations: Vec<serde_json::Value>,
-   pub notes: Vec<String>,
-}
-
-impl Report {
-   pub fn count(&mut self, label: &str, n: u64) { *self.distribution.entry(label.to_string()).or_insert(0) += n; }
-   pub fn violation(&mut self, v: serde_json::Value) {
-      if self.violations.len() < 20 {
-         self.violations.push(v);
-      }
-   }
-}
-
-pub struct Args {
-   pub prop: String,
-   pub tier: String,
-   pub seed: u64,
-   pub out: String,
-   pub replay: Option<String>,
-}
-
-pub fn catch<R>(f: impl FnOnce() -> R) -> Result<R, String> {
-   std::panic::catch_unwind(std::panic::AssertUnwindSafe(f)).map_err(|p| {
-      if let Some(s) = p.downcast_ref::<&str>() {
-         s.to_string()
-      } else if let Some(s) = p.downcast_ref::<String>() {
-         s.clone()
-      } else {
-         "<panic>".into()
-      }
-   })
-}
+use libprops::*;
 
 fn main() {
    let argv: Vec<String> = std::env::args().collect();
+   if argv.get(1).map(|s| s.as_str()) == Some("fuzz-replay") {
+      std::panic::set_hook(Box::new(|_| {}));
+      let data = std::fs::read(&argv[3]).expect("input file");
+      match fuzz::entry(&argv[2], &data) {
+         Ok(nt) => println!("fuzz-replay target={} ok nontrivial={nt}", argv[2]),
+         Err(e) => {
+            println!("FAILURE {e}");
+            std::process::exit(1);
+         },
+      }
+      return;
+   }
+   if argv.get(1).map(|s| s.as_str()) == Some("fuzz-corpus") {
+      fuzz::write_corpus(&argv[2], &argv[3], argv[4].parse().expect("n"), argv[5].parse().expect("seed"));
+      return;
+   }
    let mut a = Args { prop: argv.get(1).cloned().unwrap_or_default(), tier: "quick".into(), seed: 1, out: "libprops.json".into(), replay: None };
    let mut i = 2;
    while i < argv.len() {
